@@ -4,8 +4,13 @@
 From LD Require Import Base F32 Data Semver Model Ops Bucket Eval EvalFacts Safety WellFormed.
 Open Scope Z_scope.
 
-Definition observer (x : obs) : bool := match x with OLog _ _ | OEvent _ => true | _ => false end.
-Definition strip (tr : list obs) : list obs := filter (fun x => negb (observer x)) tr.
+(* [kl] = keep log lines: with [kl = false] both log lines and events are observers (stripped before comparing); with
+   [kl = true] only events are, and the two evaluators must then agree on having a logger. *)
+Section Strip.
+Variable kl : bool.
+Definition observer (x : obs) : bool := match x with OLog _ _ => negb kl | OEvent _ => true | _ => false end.
+Definition stripg (tr : list obs) : list obs := filter (fun x => negb (observer x)) tr.
+Notation strip := stripg.
 
 Definition R (s1 s2 : st) : Prop :=
   s_cache s1 = s_cache s2 /\ s_status s1 = s_status s2 /\ strip (s_trace s1) = strip (s_trace s2).
@@ -49,17 +54,21 @@ Variable re_ok : str -> bool.
 Variable re_match : str -> str -> bool.
 Variable o1 o2 : opts.
 Hypothesis same_secondary : o_secondary o1 = o_secondary o2.
+Hypothesis same_logger : kl = true -> o_logger o1 = o_logger o2.
 Variable E : env.
 Variable P : bsprov.
 Variable c : ctx.
 
-Lemma observer_log (o : opts) k e s :
+Lemma observer_log (o : opts) k e s : kl = false ->
   fst (log o k e s) = Done tt /\ s_cache (snd (log o k e s)) = s_cache s /\ s_status (snd (log o k e s)) = s_status s /\
   strip (s_trace (snd (log o k e s))) = strip (s_trace s).
-Proof. unfold log. destruct (o_logger o); simpl; auto. Qed.
+Proof. intros Hk. unfold log, stripg. destruct (o_logger o); simpl; rewrite ?Hk; simpl; auto. Qed.
 
 Lemma rel_log k e : rel (log o1 k e) (log o2 k e).
-Proof. apply rel_observe; intros s; apply observer_log. Qed.
+Proof.
+  destruct kl eqn:Hk; [|apply rel_observe; intros s; apply observer_log; exact Hk].
+  unfold log. rewrite (same_logger eq_refl). destruct (o_logger o2); [apply rel_emit|apply rel_ret].
+Qed.
 
 Lemma rel_membership_for k : rel (membership_for P k) (membership_for P k).
 Proof.
@@ -187,9 +196,35 @@ End Transparent.
 
 Lemma strip_rev tr : strip (rev tr) = rev (strip tr).
 Proof.
-  unfold strip. induction tr as [|x tr IH]; simpl; [reflexivity|]. rewrite filter_app, IH. simpl.
+  unfold stripg. induction tr as [|x tr IH]; simpl; [reflexivity|]. rewrite filter_app, IH. simpl.
   destruct (negb (observer x)); simpl; [reflexivity|rewrite app_nil_r; reflexivity].
 Qed.
+
+Theorem observers_are_transparent_g re_ok re_match o1 o2 E P c f out1 :
+  o_secondary o1 = o_secondary o2 -> (kl = true -> o_logger o1 = o_logger o2) ->
+  run re_ok re_match o1 E P c f = Done out1 ->
+  exists out2, run re_ok re_match o2 E P c f = Done out2 /\
+               out_detail out2 = out_detail out1 /\ out_isexp out2 = out_isexp out1 /\
+               strip (out_trace out2) = strip (out_trace out1).
+Proof.
+  intros Hs Hl Hr.
+  destruct (match c with CInvalid => true | _ => false end) eqn:Hc.
+  { destruct c; try discriminate. inversion Hr; subst. eexists. split; [reflexivity|auto]. }
+  assert (Hn : c <> CInvalid) by (intros Hx; rewrite Hx in Hc; discriminate).
+  rewrite (run_valid re_ok re_match o1 E P c f Hn) in Hr. rewrite (run_valid re_ok re_match o2 E P c f Hn). unfold finish in *.
+  assert (HR0 : R st0 st0) by (unfold R; auto).
+  destruct (rel_eval_flag re_ok re_match o1 o2 Hs Hl E P c (flag_fuel E) [] f st0 st0 HR0) as [E1 [E2 [E3 E4]]].
+  destruct (eval_flag re_ok re_match o1 E P c (flag_fuel E) [] f st0) as [r1 s1].
+  destruct (eval_flag re_ok re_match o2 E P c (flag_fuel E) [] f st0) as [r2 s2]. simpl in *. subst r2.
+  destruct r1 as [[d b]| |]; try discriminate. inversion Hr; subst. rewrite <- E3.
+  eexists. split; [reflexivity|]. cbn [out_detail out_isexp out_trace]. split; [reflexivity|]. split; [reflexivity|].
+  rewrite !strip_rev. f_equal. symmetry. exact E4.
+Qed.
+End Strip.
+
+Notation strip := (stripg false).
+(* events aside: what is left includes every log line *)
+Notation strip_events := (stripg true).
 
 (* same result, same experiment bit, same trace apart from log lines and events *)
 Theorem observers_are_transparent re_ok re_match o1 o2 E P c f out1 :
@@ -198,17 +233,16 @@ Theorem observers_are_transparent re_ok re_match o1 o2 E P c f out1 :
   exists out2, run re_ok re_match o2 E P c f = Done out2 /\
                out_detail out2 = out_detail out1 /\ out_isexp out2 = out_isexp out1 /\
                strip (out_trace out2) = strip (out_trace out1).
-Proof.
-  intros Hs Hr.
-  destruct (match c with CInvalid => true | _ => false end) eqn:Hc.
-  { destruct c; try discriminate. inversion Hr; subst. eexists. split; [reflexivity|auto]. }
-  assert (Hn : c <> CInvalid) by (intros Hx; rewrite Hx in Hc; discriminate).
-  rewrite (run_valid re_ok re_match o1 E P c f Hn) in Hr. rewrite (run_valid re_ok re_match o2 E P c f Hn). unfold finish in *.
-  assert (HR0 : R st0 st0) by (unfold R; auto).
-  destruct (rel_eval_flag re_ok re_match o1 o2 Hs E P c (flag_fuel E) [] f st0 st0 HR0) as [E1 [E2 [E3 E4]]].
-  destruct (eval_flag re_ok re_match o1 E P c (flag_fuel E) [] f st0) as [r1 s1].
-  destruct (eval_flag re_ok re_match o2 E P c (flag_fuel E) [] f st0) as [r2 s2]. simpl in *. subst r2.
-  destruct r1 as [[d b]| |]; try discriminate. inversion Hr; subst. rewrite <- E3.
-  eexists. split; [reflexivity|]. cbn [out_detail out_isexp out_trace]. split; [reflexivity|]. split; [reflexivity|].
-  rewrite !strip_rev. f_equal. symmetry. exact E4.
-Qed.
+Proof. intros Hs. apply observers_are_transparent_g; [exact Hs|discriminate]. Qed.
+
+(* with the same logger, a recorder changes nothing but the events: the log lines are the same, in the same order *)
+Theorem recorder_keeps_log_lines re_ok re_match o1 o2 E P c f out1 :
+  o_secondary o1 = o_secondary o2 -> o_logger o1 = o_logger o2 ->
+  run re_ok re_match o1 E P c f = Done out1 ->
+  exists out2, run re_ok re_match o2 E P c f = Done out2 /\
+               out_detail out2 = out_detail out1 /\ out_isexp out2 = out_isexp out1 /\
+               strip_events (out_trace out2) = strip_events (out_trace out1).
+Proof. intros Hs Hl. apply observers_are_transparent_g; [exact Hs|intros _; exact Hl]. Qed.
+
+Lemma in_strip_events_log k e tr : In (OLog k e) tr <-> In (OLog k e) (strip_events tr).
+Proof. unfold stripg. rewrite filter_In. simpl. tauto. Qed.
